@@ -223,6 +223,16 @@ def st_shape(draw):
 @st.composite
 def st_case(draw, scheme):
     cfg = base_config(scheme)
+    grid_base = draw(st.integers(0, 2)) == 0
+    if grid_base:
+        # start from a non-default configuration of the supported grid (all cross-field contracts hold), so that accepted
+        # non-default configurations - where a wrong answer would be silent - are well represented
+        cfg = S.public_cfg(S.DESCS[scheme].st_config(draw))
+        if scheme == "CGKO06.SSE1":
+            cfg["param_s"] = min(cfg["param_s"], 256)
+            cfg["param_dictionary_size"] = 16
+        if scheme == "CGKO06.SSE2":
+            cfg["param_n"] = 0
     f = FIELDS[scheme]
     cands = []
     for name in f.get("len", []):
@@ -237,7 +247,7 @@ def st_case(draw, scheme):
     if scheme == "DP17.Pi":
         cands.append(("param_L", [0, 1, 2, 3, 2.5, -1]))
         cands.append(("param_actual_storage_level_ratio", [-0.5, 0, 0.05, 0.2, 0.5, 0.8, 1, 1.7]))
-    nedits = draw(st.sampled_from([1, 1, 2, 2, 3]))
+    nedits = draw(st.sampled_from([0, 0, 1]) if grid_base else st.sampled_from([1, 1, 2, 2, 3]))
     edits = []
     for _ in range(nedits):
         name, values = draw(st.sampled_from(cands))
@@ -254,7 +264,14 @@ def st_case(draw, scheme):
     scan_n = True
     if scheme == "CGKO06.SSE2" and any(e[0] == "param_n" for e in edits):
         scan_n = False
-    return {"scheme": scheme, "cfg": cfg, "edits": edits, "shape": draw(st_shape()), "seed": draw(st.integers(0, 2 ** 32)),
+    shape = draw(st_shape())
+    if grid_base:
+        edits = [["grid_config", {k: v for k, v in cfg.items() if k.startswith("param")}]] + edits
+        th = [t for t in S.DESCS[scheme].thresholds(cfg) if 1 <= t <= 40] if all(
+            is_pos_int(cfg.get(k, 1)) for k in ("param_B", "param_b", "param_B_prime", "param_b_prime", "param_L", "param_s")) else []
+        if th:
+            shape["lens"] = [draw(st.sampled_from(th)) for _ in range(draw(st.integers(1, 4)))]
+    return {"scheme": scheme, "cfg": cfg, "edits": edits, "shape": shape, "seed": draw(st.integers(0, 2 ** 32)),
             "scan_n": scan_n}
 
 
